@@ -69,6 +69,9 @@ func (h *hist) fail(sig, format string, a ...interface{}) {
 
 func (h *hist) addr() (string, int) {
 	name := names[h.r.Intn(len(names))]
+	if h.sep != "" && h.sep != "." {
+		name = strings.ReplaceAll(name, ".", h.sep)
+	}
 	idx := -1
 	if h.r.Intn(3) == 0 {
 		idx = h.r.Intn(4)
@@ -99,7 +102,15 @@ func (check) Run(seed int64, tier string, idx int, verbose bool) harness.Result 
 	res := harness.NewR(idx)
 	r := rand.New(rand.NewSource(harness.Mix(seed, "C12", idx)))
 	h := &hist{res: res, r: r, verbose: verbose}
-	if r.Intn(4) > 0 {
+	switch r.Intn(8) {
+	case 0, 1:
+	case 2:
+		h.sep = "/" // another separator: the addresses are spelled with it
+		h.o = []ucfg.Option{ucfg.PathSep("/")}
+	case 3:
+		h.sep = "::"
+		h.o = []ucfg.Option{ucfg.PathSep("::")}
+	default:
 		h.sep = "."
 		h.o = []ucfg.Option{ucfg.PathSep(".")}
 	}
